@@ -551,9 +551,15 @@ def keep_required_via_pattern(d, rng):
 
 
 def keep_required_via_nested_additional(d, rng):
+    inner = {"type": "string"}
+    v = next_variant("via_nested", 3)
+    if v == 1:
+        inner["readOnly"] = True      # required and readOnly: a warning, which must not count as "not defined"
     d.setdefault("definitions", {})["ViaNested"] = {"type": "object", "required": ["inner"],
-                                                   "additionalProperties": {"type": "object", "properties": {"inner": {"type": "string"}}}}
-    return "required property defined inside the additionalProperties schema"
+                                                   "additionalProperties": {"type": "object", "properties": {"inner": inner}}}
+    if v == 2:
+        d["definitions"]["ViaNested"]["additionalProperties"]["readOnly"] = True
+    return "required property defined inside the additionalProperties schema" + ["", " (readOnly there)", " (the additionalProperties schema is readOnly)"][v]
 
 
 def keep_two_placeholders_one_segment(d, rng):
